@@ -34,6 +34,7 @@ var fedFuncList = []struct{ file, name string }{
 	{"hooks.go", "Federation.OnSubscribedWrapper"}, {"hooks.go", "Federation.OnUnsubscribedWrapper"},
 	{"hooks.go", "Federation.OnSessionTerminatedWrapper"}, {"hooks.go", "sendSharedMsg"}, {"hooks.go", "Federation.sendMessage"},
 	{"hooks.go", "Federation.OnMsgArrivedWrapper"}, {"hooks.go", "Federation.OnWillPublishWrapper"},
+	{"peer.go", "peer.initStream"},
 }
 
 func fedFuncFacts(repo string, w *bytes.Buffer) error {
